@@ -253,6 +253,31 @@ func main() {
 			enc = conversion.Float32ToBytes(v) // raw (unsafe) variant on little-endian machines
 		}
 		o.Emit("f32vecenc", "f32vecenc "+hv, vh.Hex(enc), l > 0)
+		// the portable variants (what the Lean definitions are generated from) through the tagged exports
+		encSafe := conversion.VerifFloat32ToBytesSafe(v)
+		o.Emit("f32vecenc-safe", "f32vecenc "+hv, vh.Hex(encSafe), l > 0)
+		if !bytes.Equal(enc, encSafe) {
+			o.Fail(fmt.Sprintf("f32vec-safe-vs-raw:len%d", l), "the portable and the raw float32 encoders produce different bytes", "f32vecenc "+hv)
+		}
+		decSafe := conversion.VerifBytesToFloat32Safe(encSafe)
+		{
+			var sb strings.Builder
+			same := len(decSafe) == len(v)
+			for j, d := range decSafe {
+				fmt.Fprintf(&sb, "%08x", math.Float32bits(d))
+				if same && math.Float32bits(d) != math.Float32bits(v[j]) {
+					same = false
+				}
+			}
+			ss := sb.String()
+			if l == 0 {
+				ss = "-"
+			}
+			o.Emit("f32vecdec-safe", "f32vecdec "+vh.Hex(encSafe), ss, l > 0)
+			if !same {
+				o.Fail(fmt.Sprintf("f32vec-safe-roundtrip:len%d", l), "float32 vector does not round-trip bit-for-bit through the portable codec", "f32vecenc "+hv)
+			}
+		}
 		var dec []float32
 		if l > 0 {
 			dec = conversion.BytesToFloat32(enc)
@@ -346,6 +371,14 @@ func doReplay(path string) {
 		case "strenc":
 			b, _ := hex.DecodeString(strings.TrimPrefix(fs[1], "-"))
 			fmt.Println(vh.Hex(encS(string(b))))
+		case "f32vecenc":
+			var v []float32
+			for i := 0; i+8 <= len(fs[1]); i += 8 {
+				var w uint32
+				fmt.Sscanf(fs[1][i:i+8], "%x", &w)
+				v = append(v, math.Float32frombits(w))
+			}
+			fmt.Println(vh.Hex(conversion.VerifFloat32ToBytesSafe(v)))
 		default:
 			fmt.Println("replay: unsupported op", fs[0])
 		}
